@@ -2416,6 +2416,26 @@ theorem contract_dispatch_was_unchecked :
     let m : Msg := { typ := "tokenfactory.ChangeAdmin", signers := [7], creator := 2, field := fun _ => none }
     wasmSignerOk 7 m = true ∧ wasmDispatchOk 7 m = false ∧ anteOk m (fun _ _ => false) = false := by decide
 
+/-- **contract_dispatch_nested_acts_only_for_itself.** Whatever a contract dispatches — a message, or messages inside any nesting
+of `authz.MsgExec` wrappers — every Paloma message that reaches a handler names the contract as its creator. -/
+theorem contract_dispatch_nested_acts_only_for_itself (c : Addr) (t : Top) (h : wasmDispatchTop c t = true) :
+    ∀ m ∈ t.scope, m.creator = c := by
+  intro m hm
+  simp only [wasmDispatchTop, List.all_eq_true, beq_iff_eq] at h
+  exact h m hm
+
+/-- **contract_dispatch_wrapping_bypassed_the_old_gate.** What the third repaired defect of this kind was: a message created in
+the name of account 2, declaring the contract 7 as signer, inside `MsgExec{grantee: 7}` passed the gate that looked at the
+dispatched message only — and authz runs it on the grantee's word alone. -/
+theorem contract_dispatch_wrapping_bypassed_the_old_gate :
+    let m : Msg := { typ := "tokenfactory.ChangeAdmin", signers := [7], creator := 2, field := fun _ => none }
+    wasmDispatchTopOld 7 (.exec 7 [.plain m]) = true ∧ execNeedsNoAuthorisation 7 m = true ∧
+      wasmDispatchTop 7 (.exec 7 [.plain m]) = false ∧ wasmDispatchTop 7 (.exec 7 [.exec 7 [.plain m]]) = false := by decide
+
+/-- non-vacuity: the contract's own message passes, bare and wrapped twice -/
+example : let m : Msg := { typ := "tokenfactory.ChangeAdmin", signers := [7], creator := 7, field := fun _ => none }
+    wasmDispatchTop 7 (.plain m) = true ∧ wasmDispatchTop 7 (.exec 7 [.exec 7 [.plain m]]) = true := by decide
+
 
 section Examples
 
